@@ -65,7 +65,7 @@ pub fn reference(
 
 // ---------------------------------------------------------------------------
 
-pub const FAULT_NAMES: [&str; 11] = [
+pub const FAULT_NAMES: [&str; 14] = [
     "caught_panic_in_op",
     "thread_crash",
     "exit_then_respawn",
@@ -77,6 +77,11 @@ pub const FAULT_NAMES: [&str; 11] = [
     "stall_starve_one",
     "die_inside_display",
     "reentrant_access_from_sink",
+    // hooks build only
+    "preempted_at_library_scheduling_point",
+    "foreign_op_while_parked_mid_operation",
+    // threads created and ended by `churn` steps (thread-id / slot reuse)
+    "short_lived_threads_churned",
 ];
 
 #[derive(Clone, Default)]
@@ -99,6 +104,7 @@ pub struct Stats {
     pub l3_compared: u64,
     pub l1_checked: u64,
     pub ref_per_event_runs: u64,
+    pub ref_process_runs: u64,
     // events at which the named failure class WOULD have changed the outcome
     pub disc_leak_ops: u64,
     pub disc_leak_reads: u64,
@@ -109,6 +115,8 @@ pub struct Stats {
     pub disc_global_ops: u64,
     pub disc_global_reads: u64,
     pub disc_inflight_ops: u64,
+    pub disc_inflight_foreign_ops: u64,
+    pub yield_points_passed: u64,
     pub mode_sensitive_ops: u64,
     /// [kind][own mode][other thread's mode] -> leak-discriminating events
     pub leak_pairs: Vec<u64>,
@@ -137,9 +145,83 @@ fn modes_in(mask: u8) -> impl Iterator<Item = u8> {
 }
 
 /// L3 + reach accounting for one finished run.  `stats` may be None (replay).
+/// Out-of-process reference: `sim refeval` reads lines `<mode> <op text>`
+/// and prints one outcome per line.  Nothing but the program text is shared
+/// with the simulated execution.
+pub fn refeval_main() -> Result<i32, String> {
+    use std::io::BufRead;
+    let stdin = std::io::stdin();
+    let mut items: Vec<(Op, u8)> = Vec::new();
+    for l in stdin.lock().lines() {
+        let l = l.map_err(|e| e.to_string())?;
+        let toks: Vec<&str> = l.split_whitespace().collect();
+        if toks.is_empty() {
+            continue;
+        }
+        let m = crate::ops::mode_from_name(toks[0]).ok_or("refeval: bad mode")?;
+        items.push((Op::parse(&toks[1..])?, m));
+    }
+    // one fresh thread; each item: set the mode explicitly, then the call
+    let outs = std::thread::spawn(move || {
+        items
+            .iter()
+            .map(|(op, m)| {
+                RoundingMode::set_default(MODES[*m as usize]);
+                exec_plain(op).show()
+            })
+            .collect::<Vec<String>>()
+    })
+    .join()
+    .map_err(|_| "refeval thread died".to_string())?;
+    for o in outs {
+        println!("{}", o.replace('\n', "\\n"));
+    }
+    Ok(0)
+}
+
+fn reference_in_other_process(items: &[(Op, u8)]) -> Result<Vec<String>, String> {
+    use std::io::Write;
+    use std::process::{Command, Stdio};
+    let exe = std::env::current_exe().map_err(|e| e.to_string())?;
+    let mut child = Command::new(exe)
+        .arg("refeval")
+        .stdin(Stdio::piped())
+        .stdout(Stdio::piped())
+        .stderr(Stdio::piped())
+        .spawn()
+        .map_err(|e| format!("spawn refeval: {}", e))?;
+    {
+        let mut si = child.stdin.take().ok_or("refeval stdin")?;
+        let mut text = String::new();
+        for (op, m) in items {
+            text.push_str(MODE_NAMES[*m as usize]);
+            text.push(' ');
+            text.push_str(&op.to_text());
+            text.push('\n');
+        }
+        si.write_all(text.as_bytes()).map_err(|e| e.to_string())?;
+    }
+    let out = child.wait_with_output().map_err(|e| e.to_string())?;
+    if !out.status.success() {
+        return Err(format!(
+            "refeval failed: {}",
+            String::from_utf8_lossy(&out.stderr)
+        ));
+    }
+    let lines: Vec<String> = String::from_utf8_lossy(&out.stdout)
+        .lines()
+        .map(|s| s.to_string())
+        .collect();
+    if lines.len() != items.len() {
+        return Err(format!("refeval: {} answers for {} items", lines.len(), items.len()));
+    }
+    Ok(lines)
+}
+
 pub fn judge(
     res: &RunResult,
     per_event: bool,
+    other_process: bool,
     stats: &mut Stats,
 ) -> Result<Judged, String> {
     // collect the operations to re-execute in isolation
@@ -161,11 +243,18 @@ pub fn judge(
             _ => {}
         }
     }
+    // verdict reference first (it must not see state left by anything else)
+    let external: Option<Vec<String>> = if other_process && !items.is_empty() {
+        stats.ref_process_runs += 1;
+        Some(reference_in_other_process(&items)?)
+    } else {
+        None
+    };
     let rows = reference(items, per_event)?;
     let mut violations: Vec<Violation> = res.violations.clone();
     let mut nontrivial = false;
 
-    for ((ix, slot), row) in owner.iter().zip(rows.iter()) {
+    for (k, ((ix, slot), row)) in owner.iter().zip(rows.iter()).enumerate() {
         let e: &Event = &res.events[*ix];
         let (sim_out, what): (&Outcome, String) = if *slot == 0 {
             let k = match &e.kind {
@@ -177,7 +266,11 @@ pub fn judge(
             (&e.extra[*slot - 1], "dtor-op".to_string())
         };
         stats.l3_compared += 1;
-        if *sim_out != row.under_model {
+        let (differs, ref_shown) = match &external {
+            Some(ext) => (sim_out.show().replace('\n', "\\n") != ext[k], ext[k].clone()),
+            None => (*sim_out != row.under_model, row.under_model.show()),
+        };
+        if differs {
             violations.push(Violation {
                 layer: "L3",
                 kind: what.clone(),
@@ -190,7 +283,7 @@ pub fn judge(
                     MODE_NAMES[e.model_mode as usize],
                     sim_out.show(),
                     MODE_NAMES[e.model_mode as usize],
-                    row.under_model.show(),
+                    ref_shown,
                     explain(sim_out, &row.all)
                 ),
             });
@@ -220,6 +313,9 @@ pub fn judge(
             nontrivial = true;
             if e.foreign_set_in_flight {
                 stats.disc_inflight_ops += 1;
+            }
+            if e.foreign_op_in_flight {
+                stats.disc_inflight_foreign_ops += 1;
             }
         }
         if let Some(p) = e.prev_mode {
@@ -290,10 +386,15 @@ pub fn judge(
                 stats.n_exit += 1;
                 st.u64(104);
             }
-            EvKind::Paused(_) => {
+            EvKind::Paused(k) => {
                 stats.n_paused += 1;
-                stats.faults[4] += 1;
-                st.u64(105);
+                if *k >= 1000 {
+                    stats.faults[11] += 1;
+                    st.u64(107);
+                } else {
+                    stats.faults[4] += 1;
+                    st.u64(105);
+                }
             }
             EvKind::Skip(_) => {
                 stats.skipped += 1;
@@ -310,6 +411,7 @@ pub fn judge(
                 if e.sink.err_fired {
                     stats.faults[6] += 1;
                 }
+                stats.yield_points_passed += e.sink.yhits as u64;
                 if e.sink.n_reent > 0 {
                     stats.faults[10] += 1;
                     stats.l1_checked += e.sink.n_reent as u64;
@@ -317,6 +419,11 @@ pub fn judge(
                 if e.foreign_set_in_flight {
                     stats.faults[5] += 1;
                 }
+                if e.foreign_op_in_flight {
+                    stats.faults[12] += 1;
+                }
+                st.u64((e.sink.ypaused > 0) as u64);
+                st.u64(e.foreign_op_in_flight as u64);
                 if let EvKind::Die(_) = e.kind {
                     stats.n_die += 1;
                     stats.faults[1] += 1;
@@ -329,6 +436,7 @@ pub fn judge(
         stats.state_hashes.insert(st.0);
     }
     stats.faults[2] += res.respawn_after_death as u64;
+    stats.faults[13] += res.churned as u64;
     stats.dtor_missing += res.dtor_missing as u64;
     stats.max_live = stats.max_live.max(res.max_live);
     Ok(Judged { violations, nontrivial })
